@@ -175,6 +175,26 @@ class C15(Check):
             for _ in range(rng.randint(10, 30)):
                 script.append((rng.randrange(2), rng.choice(["enter", "poll", "send", "send", "exit", "copydrop"]), rng.randrange(2)))
             out.append({"kind": "C", "n": 2, "script": script, "loops": rng.random() < 0.4})
+        import random
+        rng = random.Random(self.seed + 15)      # its own stream: the cases above stay what they were
+        for _ in range(6 if self.tier == "quick" else 60):
+            # participants of one loop (the REAL ParallelEtherCat.run() in forked processes) come and go while others keep running;
+            # everybody exchanges mailbox messages with the same terminal.  At least one participant is running at any time.
+            n = 3
+            running, script, started = [0], [["start", 0]], {0}
+            for _ in range(rng.randint(6, 14)):
+                r = rng.random()
+                idle = [p for p in range(n) if p not in running and p not in started]
+                if r < 0.2 and idle:
+                    p = rng.choice(idle)
+                    running.append(p)
+                    started.add(p)
+                    script.append(["start", p])
+                elif r < 0.4 and len(running) > 1:
+                    script.append(["stop", running.pop(rng.randrange(len(running)))])
+                else:
+                    script.append(["mbx", rng.choice(running)])
+            out.append({"kind": "L", "n": n, "script": script})
         return out
 
     # ------------------------------------------------------------------ A
@@ -410,7 +430,44 @@ class C15(Check):
                 k.close()
             shutil.rmtree(tmp, ignore_errors=True)
 
+    def run_L(self, case):
+        from .c23 import child_setup_factory
+        root = tempfile.mkdtemp(prefix="verif_c15_")
+        for d in ("/run/lock", "/sys/fs/bpf", "/run/ebpf"):
+            os.makedirs(root + d)
+        kids = [Child(child_setup_factory(root, i)) for i in range(case["n"])]
+        trace = []
+        try:
+            for op, p in case["script"]:
+                if op == "start":
+                    r = kids[p].call("start", [1 + p % 3, 1 + (p + 1) % 3, 1 + (p + 2) % 3], [10 + p])
+                elif op == "stop":
+                    r = kids[p].call("stop")
+                else:
+                    r = kids[p].call("mbx", 1003)
+                    if r[0] == "ok":
+                        trace.append([p, r[1]])
+                if r[0] != "ok":
+                    return Err(5, f"{op} of participant {p} failed: {r}")
+            try:
+                with open(root + "/run/ebpf/verif0", "rb") as f:
+                    byte = f.read()[3:4]
+            except OSError:
+                byte = b""
+            return {"trace": trace, "byte": list(byte)}
+        finally:
+            for k in kids:
+                k.close()
+            shutil.rmtree(root, ignore_errors=True)
+
     def run_impl(self, case):
+        if case["kind"] == "L":
+            try:
+                o = self.run_L(case)
+            except Exception as e:      # noqa
+                o = Err(5, f"{type(e).__name__}: {e}")
+            case["_o"] = o
+            return o
         try:
             o = self.run_C(case) if case["kind"] == "C" else self.run_A(case) if case["kind"] == "A" else self.run_B(case)
         except asyncio.TimeoutError:
@@ -425,6 +482,12 @@ class C15(Check):
         o = case["_o"]
         if isinstance(o, Err):
             return "(VZ 0)"
+        if case["kind"] == "L":
+            evs = ["BInit"]
+            for op, p in case["script"]:
+                if op == "mbx":
+                    evs += [f"BLock {cnat(p)}", f"BRead {cnat(p)}", f"BSend {cnat(p)}", f"BWrite {cnat(p)}", f"BUnlock {cnat(p)}"]
+            return f"(runB {cnat(case['n'])} {clist(evs)})"
         if case["kind"] == "A":
             names = {"acquire": "Acquire", "send": "Send", "release": "Release"}
             return "(runA " + clist([f"{names[k]} {cnat(u)}" for k, u in o["evs"]]) + ")"
@@ -453,6 +516,8 @@ class C15(Check):
     def model_value(self, case, o):
         if isinstance(o, Err):
             return 0
+        if case["kind"] == "L":
+            return [o["trace"], (o["byte"][0] if o["byte"] else None), None, [0] * case["n"]]
         if case["kind"] == "A":
             return [o["log"], o["counter"] if o["counter"] is not None else self._next(o["log"])]
         if case["kind"] == "C":
@@ -487,6 +552,14 @@ class C15(Check):
     def holds(self, case, o):
         if isinstance(o, Err):
             return o.what
+        if case["kind"] == "L":
+            prev = None
+            for k, (p, c) in enumerate(o["trace"]):
+                if (prev is None and c != 0) or (prev is not None and c != prev % 7 + 1):
+                    return (f"message {k} (participant {p}) carries counter {c} after {prev}: the counters seen by the terminal are {[x[1] for x in o['trace']]} "
+                            f"while participants come and go ({case['script']})")
+                prev = c
+            return True
         if case["kind"] == "A":
             cur = None
             for e in o["log"]:
@@ -572,10 +645,10 @@ class C15(Check):
         return ("A: 2-4 tasks in one event loop doing 1-3 exchanges of 1-3 messages each on one MailboxLock or one ParallelMailboxLock, random yields; "
                 "B: 2-3 real processes sharing one lock file, commands (enter/poll/send/exit, creator's late initialisation) interleaved by the harness, half of "
                 "the cases start inside the creation window; C: two processes each using TWO terminals on the shared lock file (an exchange with one terminal running "
-                "while exchanges with the other begin and end, and pickled copies of the lock file object come and go; 40%: the two terminals have the same station address on two different loops - two master objects and lock files per process, locks from get_mbx_lock); non-trivial = at least 4 log entries / messages")
+                "while exchanges with the other begin and end, and pickled copies of the lock file object come and go; 40%: the two terminals have the same station address on two different loops - two master objects and lock files per process, locks from get_mbx_lock); plus scripts in which 3-4 participants of one loop (the real ParallelEtherCat.run() in forked processes, shared objects in a scratch root) start, exchange mailbox messages with one terminal and stop while at least one other keeps running; non-trivial = at least 4 log entries / messages")
 
     def distribution(self, cases, observed):
-        d = {"A": 0, "B": 0, "C": 0, "B_window": 0, "messages": 0, "blocked_enters": 0}
+        d = {"A": 0, "B": 0, "C": 0, "L": 0, "B_window": 0, "messages": 0, "blocked_enters": 0}
         for c, o in zip(cases, observed):
             d[c["kind"]] += 1
             d["B_window"] += c.get("window", False)
@@ -586,6 +659,8 @@ class C15(Check):
             elif c["kind"] == "C":
                 d["messages"] += len(o["trace"][0]) + len(o["trace"][1])
                 d["blocked_enters"] += sum(1 for t in (0, 1) for e in o["evs"][t] if e != "init" and e[0] == "lockfail")
+            elif c["kind"] == "L":
+                d["messages"] += len(o["trace"])
             else:
                 d["messages"] += len(o["trace"])
                 d["blocked_enters"] += sum(1 for e in o["evs"] if e != "init" and e[0] == "lockfail")
